@@ -285,6 +285,7 @@ def main():
             j["conf"].setdefault("for", "")
             j["conf"].setdefault("fieldmask", 0)
             j["conf"].setdefault("or", 0)
+            j["conf"].setdefault("keyloss", 0)
         meta = {j["id"]: j for j in jobs}
         ejobs = []
         for j in jobs:
